@@ -70,3 +70,65 @@ impl TwoRefs for Pair {
     fn right(&self) -> &L { &self.r }
     fn which(&self) -> u32 { self.k }
 }
+
+/// Default-bodied methods that the implementor OVERRIDES (a `where Self: Sized` one, one taking an
+/// associated-type argument), and an unmarked Result-returning method declared after an `#[int_result]` one.
+#[cglue_trait]
+pub trait Defaults {
+    type Msg;
+    fn add(&mut self, v: u64) -> u64;
+    fn add_twice(&mut self, v: u64) -> u64
+    where
+        Self: Sized,
+    {
+        self.add(v);
+        self.add(v)
+    }
+    fn post(&mut self, m: Self::Msg) -> u64;
+    fn post_urgent(&mut self, m: Self::Msg, pri: u8) -> u64 {
+        let _ = pri;
+        self.post(m)
+    }
+    #[int_result]
+    fn coded(&self, fail: bool) -> Result<u64, ()>;
+    fn io_after(&self, fail: bool) -> Result<u64, std::io::Error>;
+    fn state(&self) -> (u64, u32, u32);
+}
+#[derive(Clone)]
+pub struct Dz {
+    pub v: u64,
+    pub adds: u32,
+    pub urgent: u32,
+}
+impl Defaults for Dz {
+    type Msg = u32;
+    fn add(&mut self, v: u64) -> u64 {
+        self.adds += 1;
+        self.v = self.v.wrapping_add(v);
+        self.v
+    }
+    fn add_twice(&mut self, v: u64) -> u64 {
+        // override: ONE logged call with a different effect than the default body
+        self.adds += 1;
+        self.v = self.v.wrapping_add(v).wrapping_add(v) ^ 0x8000;
+        self.v
+    }
+    fn post(&mut self, m: u32) -> u64 {
+        self.v ^= m as u64;
+        self.v
+    }
+    fn post_urgent(&mut self, m: u32, pri: u8) -> u64 {
+        self.urgent += 1;
+        self.v ^= ((m as u64) << 8) | pri as u64;
+        self.v
+    }
+    fn coded(&self, fail: bool) -> Result<u64, ()> {
+        if fail { Err(()) } else { Ok(self.v) }
+    }
+    fn io_after(&self, fail: bool) -> Result<u64, std::io::Error> {
+        if fail { Err(std::io::Error::from(std::io::ErrorKind::InvalidInput)) } else { Ok(!self.v) }
+    }
+    fn state(&self) -> (u64, u32, u32) {
+        (self.v, self.adds, self.urgent)
+    }
+}
